@@ -23,6 +23,10 @@ const (
 	inlineMaxPaths = 8
 	inlineMaxDepth = 2
 	inlineMaxStmts = 40
+	// private helpers (CallGraph.Owner == the analysed function)
+	inlinePrivStmts = 150
+	inlinePrivPaths = 96
+	inlinePrivDepth = 4
 )
 
 var inlineOff = os.Getenv("COERLINT_NOINLINE") != ""
@@ -70,7 +74,7 @@ func simpleArg(info *types.Info, e ast.Expr) bool {
 
 // inlineOf prepares (once per call site) the callee copy for a call event, or returns nil.
 func (f *Flow) inlineOf(e Event) *inlined {
-	if inlineOff || e.Call == nil || len(f.inlStack) >= inlineMaxDepth {
+	if inlineOff || e.Call == nil || len(f.inlStack) >= inlinePrivDepth {
 		return nil
 	}
 	if in, ok := f.inl[e.Call]; ok {
@@ -97,8 +101,32 @@ func (f *Flow) inlineOf(e Event) *inlined {
 	if sig == nil || sig.Variadic() || sig.TypeParams().Len() > 0 || sig.RecvTypeParams().Len() > 0 {
 		return nil
 	}
-	if countStmts(callee.Decl.Body) > inlineMaxStmts {
+	// a private helper of the analysed function (a piece it was split into) is inlined generously:
+	// splicing it back recreates the function as it was, paths and all
+	priv := f.inlMode == 0 && f.self != nil && callee.Key != f.self.Key && f.P.CallGraph().PrivateTo(callee.Key, f.self.Key)
+	maxStmts, maxPaths := inlineMaxStmts, inlineMaxPaths
+	if priv {
+		maxStmts, maxPaths = inlinePrivStmts, inlinePrivPaths
+	} else if len(f.inlStack) >= inlineMaxDepth {
 		return nil
+	}
+	if f.inlMode >= 2 {
+		// last resort before giving up on inlining: only what cannot multiply paths — a call that is the
+		// whole operand of a return (its paths end there) and callees with at most two paths
+		if rs, isRet := e.Node.(*ast.ReturnStmt); isRet && len(rs.Results) == 1 && ast.Unparen(rs.Results[0]) == ast.Expr(e.Call) {
+			maxPaths = inlineMaxPaths
+		} else {
+			maxPaths = 2
+		}
+	}
+	if countStmts(callee.Decl.Body) > maxStmts {
+		return nil
+	}
+	// the callee's own (memoised) analysis tells cheaply whether it has too many paths to splice in
+	if own := f.P.FlowOf(callee); own != f && !own.busy {
+		if ps, ok := own.Paths(); !ok || len(ps) > maxPaths {
+			return nil
+		}
 	}
 	// an interface method call is not statically resolved
 	var recvArg ast.Expr
@@ -235,10 +263,10 @@ func (f *Flow) inlineOf(e Event) *inlined {
 	body := cl.Block(decl.Body)
 	sub := &Flow{P: f.P, Pkg: f.Pkg, Info: f.Info, Node: body, Body: body, Name: callee.Key + "@inl" + suffix,
 		comm: map[ast.Node]bool{}, caseTag: map[ast.Expr]*ast.SwitchStmt{}, inl: map[*ast.CallExpr]*inlined{},
-		inlStack: append(append([]*Func{}, f.inlStack...), callee), self: f.self}
+		inlStack: append(append([]*Func{}, f.inlStack...), callee), self: f.self, inlMode: f.inlMode}
 	sub.prepare()
 	paths, ok := sub.Paths()
-	if !ok || len(paths) > inlineMaxPaths || len(paths) == 0 {
+	if !ok || len(paths) > maxPaths || len(paths) == 0 {
 		return nil
 	}
 	in.flow = sub
